@@ -18,6 +18,7 @@ import (
 	"errors"
 	"fmt"
 	"io"
+	"log"
 	"math/big"
 	"net"
 	"net/http"
@@ -152,4 +153,89 @@ func TestVerifDemoC17(t *testing.T) {
 	case <-time.After(3 * time.Second):
 		fmt.Println("DEMO Serve did not return within 3 s of the drain")
 	}
+}
+
+// ---- C11 / C17: the cancellation arrives between the end of an HTTP/1.1 client's TLS handshake and
+// the hand-over of its connection to the internal HTTP/1.1 server (found by the explored-schedule
+// harness VerifC17_cancel_race). The schedule is forced through public configuration only: the
+// verbose log line "client hello (...)" is written exactly there, and the demo's log writer cancels
+// the server's context at that line and gives the HTTP/1.1 server time to stop accepting.
+
+type demoCloseRecorder struct {
+	net.Conn
+	mu     sync.Mutex
+	closed bool
+}
+
+func (c *demoCloseRecorder) Close() error {
+	c.mu.Lock()
+	c.closed = true
+	c.mu.Unlock()
+	return c.Conn.Close()
+}
+
+func (c *demoCloseRecorder) isClosed() bool {
+	c.mu.Lock()
+	defer c.mu.Unlock()
+	return c.closed
+}
+
+type demoLogHook struct {
+	once sync.Once
+	f    func()
+}
+
+func (h *demoLogHook) Write(p []byte) (int, error) {
+	if bytes.Contains(p, []byte("client hello (")) {
+		h.once.Do(h.f)
+	}
+	return len(p), nil
+}
+
+func TestVerifDemoC11CancelRace(t *testing.T) {
+	cert := demo17Cert(t)
+	ctx, cancel := context.WithCancel(context.Background())
+	server := NewServer(ctx, http.NotFoundHandler(), &tls.Config{Certificates: []tls.Certificate{cert}, NextProtos: []string{"h2", "http/1.1"}})
+	server.TLSHandshakeTimeout = 10 * time.Second
+	server.VerboseLogs = true
+	server.ErrorLog = log.New(&demoLogHook{f: func() {
+		cancel()                           // SIGTERM, right after this client's handshake completed
+		time.Sleep(300 * time.Millisecond) // the internal HTTP/1.1 server stops accepting
+	}}, "", 0)
+	ln := &demoPipeListener{conns: make(chan net.Conn), closed: make(chan struct{})}
+	serveDone := make(chan error, 1)
+	go func() { serveDone <- server.Serve(ln) }()
+
+	cliRaw, srvRaw := net.Pipe()
+	rec := &demoCloseRecorder{Conn: srvRaw}
+	select {
+	case ln.conns <- rec:
+	case <-time.After(time.Second):
+		fmt.Println("REPLAY-UNSUPPORTED could not connect")
+		return
+	}
+	a := tls.Client(cliRaw, &tls.Config{InsecureSkipVerify: true, ServerName: "demo", NextProtos: []string{"http/1.1"}})
+	a.SetDeadline(time.Now().Add(10 * time.Second))
+	if err := a.Handshake(); err != nil {
+		fmt.Println("REPLAY-UNSUPPORTED handshake failed:", err)
+		return
+	}
+	go io.Copy(io.Discard, a) // session tickets etc.
+	select {
+	case err := <-serveDone:
+		fmt.Println("DEMO Serve returned:", err)
+	case <-time.After(5 * time.Second):
+		fmt.Println("DEMO Serve did not return within 5 s")
+	}
+	cliRaw.Close() // the client gives up
+	deadline := time.Now().Add(2 * time.Second)
+	for time.Now().Before(deadline) && !rec.isClosed() {
+		time.Sleep(20 * time.Millisecond)
+	}
+	if !rec.isClosed() {
+		fmt.Println("DEMO 2 s after the client went away the proxy has still not closed the accepted connection (serveConn is parked in SendToChannel: nobody accepts any more)")
+		fmt.Println("REPLAY-VIOLATION tag=connection-closed-whenever-the-cancellation-arrives")
+		fmt.Println("REPLAY-VIOLATION tag=no-goroutine-left-behind-whenever-the-cancellation-arrives")
+	}
+	fmt.Println("REPLAY-END")
 }
